@@ -96,18 +96,21 @@ func Loop(ctx context.Context, lst Accepter, newService func() Service, opts *Lo
 	var wg sync.WaitGroup
 	for {
 		ch, err := lst.Accept(ctx)
+		verifPoint("loop.afterAccept")
 		if err != nil {
 			if channel.IsErrClosing(err) {
 				err = nil
 			} else {
 				log("Error accepting new connection: %v", err)
 			}
+			verifPoint("loop.beforeWait")
 			wg.Wait()
 			return err
 		}
 		wg.Add(1)
 		go func() {
 			defer wg.Done()
+			verifPoint("loop.conn.start")
 
 			svc := newService()
 			assigner, err := svc.Assigner()
@@ -121,8 +124,10 @@ func Loop(ctx context.Context, lst Accepter, newService func() Service, opts *Lo
 
 			srv := jrpc2.NewServer(assigner, serverOpts).Start(ch)
 			go func() { <-sctx.Done(); srv.Stop() }()
+			verifPoint("loop.conn.afterStart")
 
 			stat := srv.WaitStatus()
+			verifPoint("loop.conn.beforeFinish")
 			svc.Finish(assigner, stat)
 			if stat.Err != nil {
 				log("Server exit: %v", stat.Err)
